@@ -7,3 +7,23 @@ claim("C03",
       "The real Packetizer.send_message/_build_packet are executed on a payload whose length is ONE symbolic 32-bit variable (1..2^32-299) for every framing mode (plain, classic, ETM, AEAD), block size {8,16,32,64}, MAC size {12,16,20,32,64}; z3 proves 4<=padding<=255, length field == 1+payload+padding, wire bytes == 4+length+mac, encrypted span multiple of the block size (length excluded for ETM/AEAD), padding byte == pad bytes written. A second case uses symbolic payload BYTES (<=21 quick / <=73 thorough) and proves the payload is embedded intact.",
       "Trusted: z3, struct model, cipher/MAC stubs (length-preserving identity, 16-byte AEAD tag, 64-byte digest truncated by the real code). Outside: compression, the cipher x MAC table beyond (block size, mac size, etm, aead, sdctr), rekey triggering (REKEY_BYTES raised so it does not fork; C10).",
       design="7 (C03)")
+claim("C33",
+      "SFTPAttributes._pack -> Message -> _from_msg is proved (z3) to preserve size (full 64-bit), uid/gid, mode, atime/mtime (full 32-bit), absence of absent fields, the flag word, and 0..2 extended pairs drawn from a table, for all 16 presence combinations.",
+      "Trusted: z3, struct/BytesIO models. uid/gid and atime/mtime are treated as the pairs the wire format defines. Extended names/values come from a concrete table (dict keys must hash).",
+      design="7 (C33)", thorough=False)
+claim("C34",
+      "canonicalize() is executed on a symbolic str of length 0..8 (quick) / 0..11 (thorough) over {'/','.','a','b'}; z3 proves on every path that the result is absolute and has no '.', '..' or interior empty component.",
+      "os.path.normpath/isabs are C in Python 3.12 and are replaced by CPython's pure-Python posixpath algorithm, validated against the real functions on all 5461 strings of length <=6 at start-up. POSIX only.",
+      design="7 (C34)")
+claim("C43",
+      "get_modulus runs on any non-empty subset of 7 group sizes with symbolic (min,prefer,max) in 0..65535^3 and is compared by z3 with an independent oracle (smallest in-range size >= prefer, else largest in-range). _parse_modulus runs on symbolic numeric fields (modulus up to 24/48 bits): an entry is filed only if the primality-test and bit-length requirements hold.",
+      "Trusted: z3; the moduli line is modelled as 7 already-split integer fields (text splitting/int parsing is CPython). When no size is in range the property does not say what is offered and nothing is asserted.",
+      design="7 (C43)")
+claim("C44",
+      "AuthStrategy.authenticate is executed for 0..4 (quick) / 0..6 (thorough) sources whose outcomes (success or one of four exception classes) are solver-chosen; order, stop-at-first-success, the AuthResult contents and AuthFailure are asserted on every path.",
+      "The input space is finite and small; the solver only drives the choice variables. Sources raising BaseException are outside the claim.",
+      design="7 (C44)")
+claim("C45",
+      "AgentKey.sign_ssh_data with the real AgentSSH._send_message/_read_all: request bytes are proved equal to an independent reference encoding (len|13|string(blob)|string(data)|uint32 flags; flags 2/4 exactly for rsa-sha2-256/512 and their cert forms) for 12 algorithm names, symbolic blob/data, inner-key (certificate) blobs; reply type is a symbolic byte (non-14 raises, 14 returns the signature bytes unchanged) under every fragmentation of the reply.",
+      "Trusted: z3, struct/BytesIO models. Blob/data <=2 (quick) / <=4 (thorough) bytes; the agent connection is a scripted stub.",
+      design="7 (C45)")
